@@ -341,7 +341,7 @@ var specFuncs = map[string]types.Type{
 	"rcount": types.Typ[types.Int], "runeat": types.Typ[types.Int],
 	"lsof": types.Typ[types.Int], "nlb": types.Typ[types.Int], "fmtint": types.Typ[types.String], "unfmtint": types.Typ[types.Int],
 	"skipsp": types.Typ[types.Int], "width": types.Typ[types.Int], "rune": types.Typ[types.Int], "u16w": types.Typ[types.Int],
-	"fsread": types.Typ[types.String],
+	"fsread":          types.Typ[types.String],
 	"unicodeIsLetter": types.Typ[types.Bool], "unicodeIsDigit": types.Typ[types.Bool], "atoiok": types.Typ[types.Bool], "atoival": types.Typ[types.Int], "trimspace": types.Typ[types.String], "substr": types.Typ[types.String],
 }
 
